@@ -209,6 +209,10 @@ impl C17 {
         let mut sent_c: Vec<[Vec<u32>; 2]> = vec![Default::default(); n];
         let mut dead = false;
         let mut closed = vec![false; n];
+        // C13 with the real backend: client events written since the client's last frame, and those that
+        // a frame ending in status Disconnected left to the local path.
+        let mut pending_c: Vec<Vec<(u8, u32)>> = vec![vec![]; n];
+        let mut expect_local: Vec<Vec<(u8, u32)>> = vec![vec![]; n];
         let total_steps = t.steps.len();
         let mut epilogue: Vec<S17> = vec![];
         for _ in 0..4 {
@@ -258,6 +262,7 @@ impl C17 {
                         clients[c].world_mut().send_event(Cu(seq, p));
                     }
                     sent_c[c][(*ch % 2) as usize].push(seq);
+                    pending_c[c].push((*ch % 2, seq));
                     Stats::bump(&mut stats.ops, "client_emit");
                 }
                 S17::ServerFrame => {
@@ -283,6 +288,13 @@ impl C17 {
                         viol(i, "panic", format!("client {c} frame panicked: {p}"), &mut violations);
                         dead = true;
                         continue;
+                    }
+                    // The backend sets the status before the library's send systems run: a frame that ends
+                    // disconnected has sent nothing, what was written for it goes the local way.
+                    let pend = std::mem::take(&mut pending_c[c]);
+                    if clients[c].world().resource::<RepliconClient>().is_disconnected() && !pend.is_empty() {
+                        stats.probe("client_event_in_disconnected_frame");
+                        expect_local[c].extend(pend);
                     }
                     let got = clients[c].world().resource::<Got>().frame_count;
                     if got >= 12 {
@@ -373,6 +385,24 @@ impl C17 {
                     }
                 }
             }
+            // C13: events left to the local path are observed there exactly once, as the local server's.
+            for c in 0..n {
+                let local = &clients[c].world().resource::<Got>().c;
+                for (ty, s) in &expect_local[c] {
+                    let seen: Vec<Entity> = local.iter().filter(|x| x.0 == *ty && x.1 == *s).map(|x| x.3).collect();
+                    let remote = got.iter().filter(|x| x.0 == *ty && x.1 == *s).count();
+                    if seen.len() != 1 || remote != 0 || seen[0] != SERVER {
+                        if violations.len() < 16 {
+                            violations.push(Violation {
+                                prop: "C13".into(),
+                                oracle: "local_event_path".into(),
+                                detail: format!("client {c} wrote event seq {s} (type {ty}) for a frame that ended disconnected: observed locally {} time(s) (senders {seen:?}), by the remote server {remote} time(s); expected once locally as the local server", seen.len()),
+                                step: end,
+                            });
+                        }
+                    }
+                }
+            }
             let all_sent: Vec<u32> = sent_c.iter().flat_map(|a| a.iter().flatten().copied()).collect();
             for x in got.iter() {
                 if !all_sent.contains(&x.1) {
@@ -431,9 +461,9 @@ impl Engine for C17 {
     type T = T17;
     const FAMILY: &'static str = "c17";
 
-    fn generate(_prop: &str, seed: u64) -> T17 {
+    fn generate(prop: &str, seed: u64) -> T17 {
         let mut r = Rng::new(seed);
-        let clients = 1 + r.chance(30) as u8;
+        let clients = if prop == "C13" { 2 } else { 1 + r.chance(30) as u8 };
         let torn = r.chance(40);
         let mut steps = vec![];
         let windows = r.range(1, 4);
@@ -480,10 +510,26 @@ impl Engine for C17 {
                 }
             }
         }
-        if clients == 2 && r.chance(20) && steps.len() > 4 {
+        if clients == 2 && (prop == "C13" || r.chance(20)) && steps.len() > 4 {
             // One of two clients goes away somewhere in the run; the other one must not notice.
             let at = r.range(1, steps.len() - 1);
-            steps.insert(at, S17::Close { client: r.below(2) as u8 });
+            let who = r.below(2) as u8;
+            let mut ins = vec![S17::Close { client: who }];
+            if prop == "C13" || r.chance(40) {
+                // ... and writes events around the frame in which it notices.
+                for _ in 0..r.range(0, 2) {
+                    ins.push(S17::Release { client: who, to_server: false, what: Rel::All });
+                }
+                for _ in 0..r.range(1, 3) {
+                    ins.push(S17::CEmit { client: who, ch: r.below(2) as u8, len: r.below(20) as u16 });
+                    if r.chance(60) {
+                        ins.push(S17::ClientFrame { client: who });
+                    }
+                }
+            }
+            for (k, st) in ins.into_iter().enumerate() {
+                steps.insert(at + k, st);
+            }
         }
         T17 { clients, steps, late_start: if r.chance(30) { r.range(1, 3) as u8 } else { 0 } }
     }
@@ -587,6 +633,22 @@ impl Engine for C17 {
                         S17::ServerFrame,
                         S17::Release { client: 1, to_server: false, what: Rel::All },
                         S17::ClientFrame { client: 1 },
+                    ],
+                    late_start: 0,
+                },
+                symptom_oracles: vec![],
+            },
+            Directed {
+                id: "peer_gone_local_event",
+                trace: T17 {
+                    clients: 2,
+                    steps: vec![
+                        S17::ServerFrame,
+                        S17::Close { client: 0 },
+                        S17::CEmit { client: 0, ch: 0, len: 4 },
+                        S17::ClientFrame { client: 0 },
+                        S17::CEmit { client: 0, ch: 1, len: 4 },
+                        S17::ClientFrame { client: 0 },
                     ],
                     late_start: 0,
                 },
